@@ -9,7 +9,7 @@ import json, os, re, subprocess, sys, glob, shutil, time
 
 ID, K = sys.argv[1], sys.argv[2]
 SKIP_SUITE = "--skip-suite" in sys.argv
-WT = f"/tmp/wt-{ID}"
+WT = os.environ.get("WT", f"/tmp/wt-{ID}")
 D = f"/verif/seeded/{ID}-{K}"
 SIM = f"{WT}/sim"
 
